@@ -24,12 +24,16 @@ def db_table(rep):
   return marshal.dumps(d)
 
 
-def load_from(live, formulas, proc_kw=None, raw=None):
-  """Returns (fresh EngineProc, reply of Calculate). Caller closes the process."""
+def load_from(live, formulas, proc_kw=None, raw=None, order_seed=None):
+  """Returns (fresh EngineProc, reply of Calculate). Caller closes the process.
+  order_seed: permutation seed of the fresh engine's work-item order (worker hook verif_set_order;
+  None / 0 = the engine's own order)."""
   if raw is None:
     raw = live.call('verif_snapshot', formulas)
   fresh = EngineProc(**(proc_kw or {}))
   try:
+    if order_seed:
+      fresh.call('verif_set_order', order_seed)
     fresh.call('load_meta_tables', db_table(raw['_grist_Tables']), db_table(raw['_grist_Tables_column']))
     for t in sorted(raw):
       if t in ('_grist_Tables', '_grist_Tables_column'):
@@ -42,9 +46,9 @@ def load_from(live, formulas, proc_kw=None, raw=None):
   return fresh, reply
 
 
-def scratch_snapshot(live, proc_kw=None):
+def scratch_snapshot(live, proc_kw=None, order_seed=None):
   """Snapshot of a fresh engine that recomputed every formula from the live engine's data columns."""
-  fresh, reply = load_from(live, False, proc_kw)
+  fresh, reply = load_from(live, False, proc_kw, order_seed=order_seed)
   try:
     return snapshot.take(fresh), reply
   finally:
